@@ -14,12 +14,28 @@ MAX_LENGTH (and delimiter), and either
 * "send" mode: a second real instance sends messages with sendLine/sendString
   over a net.Link to the receiver under a tape-chosen delivery schedule.
 
+Two further families, each present in a share of the runs:
+
+* "companion": a second, independent connection of the SAME receiver class (own
+  transport, own stream / own sender, own script, own reference) is live during
+  the run and its deliveries are interleaved by the tape with the first one's,
+  so that either connection is regularly in the middle of a message while the
+  other one receives.  Each connection is judged against its own reference only.
+* "reconfiguration": the script also lets the application set MAX_LENGTH (every
+  class) or the delimiter (LineReceiver) on the receiver from inside the message
+  callback k.  The reference applies the new values to everything that follows
+  message k in the stream - also to bytes that arrived in the same delivery as
+  message k; the grammar then aims the following messages at the NEW limit
+  (new-1/new/new+1) and mixes the old delimiter into the payloads.  In "send"
+  mode the sender follows the same schedule (its own delimiter / the limit it
+  stays within change after it has sent message k).
+
 Oracle: models/framing.py (whole-stream reference framers).  Checked: the
 observed callback sequence up to the first close request == the reference
 framing == the sequence observed when a fresh instance gets the same stream in
-ONE delivery; no message longer than MAX_LENGTH is ever delivered; no message
-within MAX_LENGTH is rejected; nothing is delivered while paused; every message
-sent with the send method arrives equal.
+ONE delivery; no message longer than the MAX_LENGTH in force is ever delivered;
+no message within it is rejected; nothing is delivered while paused; every
+message sent with the send method arrives equal.
 """
 from detsim import net
 from models import framing
@@ -31,23 +47,38 @@ ENGINE = "net"
 LEVEL = "exploration"
 TECHNIQUE = ("deterministic simulation: seeded stream grammar + seeded segmentation/pause/mode-switch schedule on real "
              "receivers vs whole-stream reference framers and vs one-piece delivery")
-QUICK_RUNS = 120000
+QUICK_RUNS = 100000
 TWIN_P = 0.08   # this share of the runs drives two independent instances of the scenario one after the other (detsim.runner._run_scenario)
 BATCH = 100
 AVOID_KNOWN_P = 0.1
+COMPANION_P = 0.3    # share of the runs with a second live connection of the same class, deliveries interleaved
+RECONF_P = 0.4       # share of the runs whose script may change MAX_LENGTH / the delimiter inside a message callback
+# LineOnlyReceiver splits a whole delivery on the delimiter before it calls lineReceived (documented as "purely a
+# speed optimisation"), so a delimiter change made inside lineReceived cannot reach the rest of that delivery; the
+# statement names mode switches "where supported", so delimiter changes are scripted for LineReceiver only.
+LINEONLY_DELIM_RECONF = False
 COMPONENTS = {
     "real": ["twisted.protocols.basic.LineReceiver", "twisted.protocols.basic.LineOnlyReceiver",
              "twisted.protocols.basic.NetstringReceiver", "twisted.protocols.basic.Int8/16/32StringReceiver",
              "sendLine/sendString", "_PauseableMixin"],
     "stub": ["TCP transport, delivery segmentation, stalls and coalescing (detsim.net.SimTransport / Link / cut)"],
 }
-RULE = ("run = one receiver class with tape-chosen MAX_LENGTH (1..64) and delimiter, fed a grammar-generated stream "
+RULE = ("run = one receiver class with tape-chosen MAX_LENGTH (0..1000) and delimiter, fed a grammar-generated stream "
         "(or messages sent by a second real instance) in tape-chosen pieces with tape-scripted pause/raw-mode/close "
-        "actions inside callbacks; non-trivial = the stream was cut at least once and at least one message or "
-        "over-length notification was observed")
+        "actions inside callbacks; in 40% of the runs the script may also set MAX_LENGTH (all classes) or the delimiter "
+        "(LineReceiver) from inside callback k, the reference framing everything after message k with the new values and "
+        "the grammar aiming the following messages at the new limit; in 30% of the runs a second live connection of the "
+        "same class with its own stream/sender, script and reference has its deliveries interleaved with the first one's; "
+        "non-trivial = the stream was cut at least once and at least one message or over-length notification was observed")
 ASSUMPTIONS = [
     "the over-length handlers keep their default behaviour (request a close), so comparison ends at the first close request",
     "the transport stops delivering once a close has been requested (as real TCP transports do)",
+    "MAX_LENGTH / delimiter are changed only from inside a message callback (never between two deliveries, where the "
+    "verdict on a partly buffered message would depend on the segmentation by nature); the message in whose callback "
+    "the change is made is complete, so every later byte belongs to a later message and must be framed with the new "
+    "values whether or not it was already buffered",
+    "delimiter changes are scripted for LineReceiver only (LineOnlyReceiver pre-splits a delivery; see LINEONLY_DELIM_RECONF)",
+    "two connections of one class share nothing: each is compared with the reference framing of its own stream only",
     "what happens to an unfinished message at the very end of the stream is compared between whole and split delivery, "
     "but the reference accepts both 'still waiting' and 'rejected' when the unfinished message can no longer fit the limit",
 ]
@@ -57,6 +88,15 @@ INT_KINDS = {"Int8StringReceiver": 1, "Int16StringReceiver": 2, "Int32StringRece
 KINDS = ["LineOnlyReceiver", "LineReceiver", "NetstringReceiver", "Int8StringReceiver", "Int16StringReceiver",
          "Int32StringReceiver"]
 DELIMS = [b"\r\n", b"\n", b"\r\n\r\n", b"ab", b"aab", b"\x00\x00\x01"]
+MAXLENS = {
+    "Int8StringReceiver": [5, 0, 1, 2, 16, 64, 254, 255],
+    "NetstringReceiver": [5, 1, 2, 9, 10, 11, 20, 64, 100, 120, 1000],
+    "LineReceiver": [5, 0, 1, 2, 3, 8, 16, 64],
+    "LineOnlyReceiver": [5, 0, 1, 2, 3, 8, 16, 64],
+    "Int16StringReceiver": [5, 0, 1, 2, 16, 64, 256, 300],
+    "Int32StringReceiver": [5, 0, 1, 2, 16, 64, 256, 300],
+}
+RECONF = ("maxlen", "delim")
 
 
 class RecTransport(net.SimTransport):
@@ -74,14 +114,17 @@ class RecTransport(net.SimTransport):
 class H:
     """Per-instance harness state shared with the recording subclass."""
 
-    def __init__(self, sim, kind, maxlen, script, tag):
-        self.sim, self.kind, self.maxlen, self.script, self.tag = sim, kind, maxlen, script, tag
+    def __init__(self, sim, kind, maxlen, delim, script, tag):
+        self.sim, self.kind, self.script, self.tag = sim, kind, script, tag
+        self.maxlen, self.delim = maxlen, delim     # the values in force (follow the scripted reconfiguration)
         self.log = []
         self.k = 0
         self.hpaused = False
         self.need = 0
         self.exceeded_arg = None
         self.pauses = 0
+        self.delivery = 0         # number of the dataReceived / resumeProducing call being processed
+        self.reconf_at = None     # delivery number in which the parameters were last changed
 
     def message(self, proto, kind, msg):
         sim = self.sim
@@ -95,6 +138,8 @@ class H:
         closed = any(e[0] == "close" for e in self.log)
         if closed:
             return
+        if self.reconf_at is not None and self.reconf_at == self.delivery:
+            sim.probe("message_after_reconf_in_same_delivery")
         if act[0] == "pause" and hasattr(proto, "pauseProducing"):
             self.hpaused = True
             self.pauses += 1
@@ -104,9 +149,20 @@ class H:
             proto.setRawMode()
         elif act[0] == "lose":
             proto.transport.loseConnection()
+        elif act[0] == "maxlen":
+            sim.probe("reconf_maxlen_raised" if act[1] > self.maxlen else "reconf_maxlen_lowered_or_same")
+            self.maxlen = act[1]
+            self.reconf_at = self.delivery
+            proto.MAX_LENGTH = act[1]
+        elif act[0] == "delim":
+            sim.probe("reconf_delimiter")
+            self.delim = act[1]
+            self.reconf_at = self.delivery
+            proto.delimiter = act[1]
 
 
-def make_receiver(kind, h, maxlen, delim):
+def make_class(kind, maxlen, delim):
+    """The application's receiver class; every connection of a run is an instance of it (its harness state in .h)."""
     if kind in LINE_KINDS:
         base = getattr(basic, kind)
 
@@ -115,9 +171,10 @@ def make_receiver(kind, h, maxlen, delim):
             delimiter = delim
 
             def lineReceived(self, line):
-                h.message(self, "line", line)
+                self.h.message(self, "line", line)
 
             def rawDataReceived(self, data):
+                h = self.h
                 h.sim.check("delivered-while-paused", not h.hpaused, kind, "raw data delivered after pauseProducing()")
                 take = min(h.need, len(data))
                 h.log.append(("raw", data[:take]))
@@ -126,15 +183,15 @@ def make_receiver(kind, h, maxlen, delim):
                     self.setLineMode(data[take:])
 
             def lineLengthExceeded(self, line):
-                h.log.append(("exceeded",))
-                h.exceeded_arg = bytes(line)
+                self.h.log.append(("exceeded",))
+                self.h.exceeded_arg = bytes(line)
                 return base.lineLengthExceeded(self, line)
     elif kind == "NetstringReceiver":
         class R(basic.NetstringReceiver):
             MAX_LENGTH = maxlen
 
             def stringReceived(self, s):
-                h.message(self, "string", s)
+                self.h.message(self, "string", s)
     else:
         base = getattr(basic, kind)
 
@@ -142,20 +199,47 @@ def make_receiver(kind, h, maxlen, delim):
             MAX_LENGTH = maxlen
 
             def stringReceived(self, s):
-                h.message(self, "string", s)
+                self.h.message(self, "string", s)
 
             def lengthLimitExceeded(self, length):
-                h.log.append(("exceeded", length))
+                self.h.log.append(("exceeded", length))
                 return base.lengthLimitExceeded(self, length)
-    return R()
+    return R
 
 
-def reference(kind, stream, maxlen, delim, script):
+def make_receiver(cls, h):
+    p = cls()
+    p.h = h
+    return p
+
+
+def reference(kind, stream, maxlen, delim, script, state_out=None):
     if kind in LINE_KINDS:
-        return framing.frame_lines(stream, delim, maxlen, script)
+        return framing.frame_lines(stream, delim, maxlen, script, state_out)
     if kind == "NetstringReceiver":
-        return framing.frame_netstrings(stream, maxlen, script)
-    return framing.frame_intn(stream, INT_KINDS[kind], maxlen, script)
+        return framing.frame_netstrings(stream, maxlen, script, state_out)
+    return framing.frame_intn(stream, INT_KINDS[kind], maxlen, script, state_out)
+
+
+def has_reconf(script):
+    return any(a[0] in RECONF for a in script.values())
+
+
+def reconf_only(script):
+    return {k: a for k, a in script.items() if a[0] in RECONF}
+
+
+def tracker(kind, maxlen, delim, script):
+    """cur(prefix) -> (MAX_LENGTH, delimiter) in force for the message that starts after `prefix` of the stream
+    (the generators aim the next message at these)."""
+    if not has_reconf(script):
+        return lambda out: (maxlen, delim)
+
+    def cur(out):
+        st = {}
+        reference(kind, bytes(out), maxlen, delim, script, st)
+        return st["maxlen"], st["delim"]
+    return cur
 
 
 # ------------------------------------------------------------------ generators
@@ -176,27 +260,34 @@ def gen_len(sim, maxlen, cap=None):
     return n
 
 
-def gen_line_stream(sim, maxlen, delim):
-    alpha = b"xy" + delim + delim[:1] * 2 + b"\r\n"
+def line_alpha(d, delim0):
+    # after a delimiter change the old delimiter is ordinary payload
+    return b"xy" + d + d[:1] * 2 + b"\r\n" + (delim0 if d != delim0 else b"")
+
+
+def gen_line_stream(sim, delim0, cur):
     out = bytearray()
     bounds = []
     for _ in range(sim.draw_int(1, 6, "nitems")):
-        out += payload(sim, gen_len(sim, maxlen), alpha)
+        maxlen, delim = cur(out)
+        out += payload(sim, gen_len(sim, maxlen), line_alpha(delim, delim0))
         if sim.draw_bool(0.9, "delim"):
             out += delim
             bounds.append(len(out))
     if sim.draw_bool(0.3, "tail"):
-        out += payload(sim, gen_len(sim, maxlen), alpha)
+        maxlen, delim = cur(out)
+        out += payload(sim, gen_len(sim, maxlen), line_alpha(delim, delim0))
         if sim.draw_bool(0.5, "partial-delim") and len(delim) > 1:
             out += delim[:sim.draw_int(1, len(delim) - 1, "k")]
     return bytes(out), bounds
 
 
-def gen_int_stream(sim, maxlen, plen):
+def gen_int_stream(sim, plen, cur):
     top = 256 ** plen - 1
     out = bytearray()
     bounds = []
     for _ in range(sim.draw_int(1, 6, "nitems")):
+        maxlen = cur(out)[0]
         if sim.draw_bool(0.12, "overlong"):
             n = sim.draw_choice([maxlen + 1, top, min(top, maxlen + 1 + sim.draw_int(0, 300, "over"))], "overlen")
             n = min(n, top)
@@ -206,16 +297,18 @@ def gen_int_stream(sim, maxlen, plen):
             out += n.to_bytes(plen, "big") + payload(sim, n, b"xy\x00\x01")
         bounds.append(len(out))
     if sim.draw_bool(0.3, "tail"):
+        maxlen = cur(out)[0]
         n = min(gen_len(sim, maxlen, top), top)
         frame = n.to_bytes(plen, "big") + payload(sim, n, b"xy\x00")
         out += frame[:sim.draw_int(0, len(frame), "tailcut")]
     return bytes(out), bounds
 
 
-def gen_net_stream(sim, maxlen):
+def gen_net_stream(sim, cur):
     out = bytearray()
     bounds = []
     for _ in range(sim.draw_int(1, 6, "nitems")):
+        maxlen = cur(out)[0]
         kind = sim.draw_weighted([("ok", 12), ("leading0", 1), ("nocomma", 1), ("nodigit", 1), ("huge", 1),
                                   ("nl", 1), ("badlen", 1)], "item")
         n = gen_len(sim, maxlen)
@@ -236,13 +329,14 @@ def gen_net_stream(sim, maxlen):
             out += b"%d" % n + sim.draw_choice([b"x:", b" :", b";"], "badsep") + body + b","
         bounds.append(len(out))
     if sim.draw_bool(0.3, "tail"):
+        maxlen = cur(out)[0]
         n = gen_len(sim, maxlen)
         frame = b"%d:" % n + payload(sim, n, b"xy,") + b","
         out += frame[:sim.draw_int(0, len(frame), "tailcut")]
     return bytes(out), bounds
 
 
-def gen_script(sim, kind, mode):
+def gen_script(sim, kind, mode, reconf=False):
     script = {}
     if kind == "LineOnlyReceiver" or (kind == "NetstringReceiver" and mode == "send"):
         acts = [(("none",), 1)]
@@ -256,94 +350,163 @@ def gen_script(sim, kind, mode):
         acts = [(("none",), 12), (("lose",), 1)]
     if mode == "send":
         acts = [(a, w) for a, w in acts if a[0] in ("none", "pause")]
+    if reconf:
+        # the application re-configures the receiver from inside the callback of message k
+        acts = [(a, max(w, 8) if a[0] == "none" else w) for a, w in acts]
+        acts.append((("maxlen",), 3))
+        if kind == "LineReceiver" or (kind == "LineOnlyReceiver" and LINEONLY_DELIM_RECONF):
+            acts.append((("delim",), 2))
     if len(acts) == 1:
         return script
     for k in range(10):
         a = sim.draw_weighted(acts, "act")
         if a[0] == "raw":
             a = ("raw", sim.draw_int(1, 9, "rawlen"))
+        elif a[0] == "maxlen":
+            a = ("maxlen", sim.draw_choice(MAXLENS[kind], "new-maxlen"))
+        elif a[0] == "delim":
+            a = ("delim", sim.draw_choice(DELIMS, "new-delimiter"))
         if a[0] != "none":
             script[k] = a
     return script
 
 
+def script_config(script):
+    return {str(k): [x if isinstance(x, (int, str)) else repr(x) for x in v] for k, v in sorted(script.items())}
+
+
 # ------------------------------------------------------------------ drivers
 
-def deliver_whole(sim, kind, maxlen, delim, script, stream):
+def deliver_whole(sim, kind, cls, maxlen, delim, script, stream):
     """Fresh instance, the whole stream in one dataReceived, resume until idle."""
-    h = H(sim, kind, maxlen, script, "whole")
-    p = make_receiver(kind, h, maxlen, delim)
+    h = H(sim, kind, maxlen, delim, script, "whole")
+    p = make_receiver(cls, h)
     t = RecTransport(sim, "W", h.log)
     t.protocol = p
     p.makeConnection(t)
     with sim.guard("receiver-raised", kind + ":whole"):
         if stream:
+            h.delivery += 1
             p.dataReceived(stream)
         n = 0
         while h.hpaused and not t.disconnecting:
             n += 1
             sim.check("harness-resume-loop", n < 200, kind)
             h.hpaused = False
+            h.delivery += 1
             p.resumeProducing()
     return h
 
 
-def deliver_split(sim, kind, maxlen, delim, script, pieces, ext_pause_p):
-    h = H(sim, kind, maxlen, script, "split")
-    p = make_receiver(kind, h, maxlen, delim)
-    t = RecTransport(sim, "S", h.log)
-    t.protocol = p
-    p.makeConnection(t)
-    pausable = hasattr(p, "pauseProducing")
-    held = b""
-    with sim.guard("receiver-raised", kind + ":split"):
-        for piece in pieces:
-            sim.step(5000)
-            if t.disconnecting:
-                break
+class SplitConn:
+    """One live connection that gets its stream in pieces: step() hands over the next piece (or stalls / resumes /
+    pushes while paused), finish() resumes until idle.  Several of them can be stepped alternately."""
+
+    def __init__(self, sim, kind, cls, maxlen, delim, script, pieces, bounds, ext_pause_p, tag, name):
+        self.sim, self.kind, self.tag = sim, kind, tag
+        self.h = H(sim, kind, maxlen, delim, script, tag)
+        self.p = make_receiver(cls, self.h)
+        self.t = RecTransport(sim, name, self.h.log)
+        self.t.protocol = self.p
+        self.p.makeConnection(self.t)
+        self.pausable = hasattr(self.p, "pauseProducing")
+        self.pieces = list(pieces)
+        self.bounds = frozenset(bounds)
+        self.ext_pause_p = ext_pause_p
+        self.i = 0
+        self.held = b""
+        self.offset = 0          # bytes handed to the protocol so far
+
+    def more(self):
+        return self.i < len(self.pieces) and not self.t.disconnecting
+
+    def mid_message(self):
+        """Handed-over bytes end inside a grammar item (approximation, used for a probe only)."""
+        return self.offset > 0 and self.offset not in self.bounds and self.more()
+
+    def _give(self, data):
+        self.h.delivery += 1
+        self.offset += len(data)
+        self.p.dataReceived(data)
+
+    def _resume(self):
+        self.h.hpaused = False
+        self.h.delivery += 1
+        self.p.resumeProducing()
+
+    def step(self):
+        sim, h, p, t = self.sim, self.h, self.p, self.t
+        piece = self.pieces[self.i]
+        self.i += 1
+        sim.step(5000)
+        with sim.guard("receiver-raised", self.kind + ":" + self.tag):
             if h.hpaused:
                 what = sim.draw_weighted([("resume", 5), ("hold", 3), ("push", 1)], "while-paused")
                 if what == "hold":
-                    held += piece
+                    self.held += piece
                     sim.fault("stall_while_paused")
-                    continue
+                    return
                 if what == "push":
                     # a transport that had already read this piece hands it over although paused
                     sim.fault("delivery_while_paused")
-                    p.dataReceived(held + piece)
-                    held = b""
-                    continue
-                h.hpaused = False
-                p.resumeProducing()
+                    data, self.held = self.held + piece, b""
+                    self._give(data)
+                    return
+                self._resume()
                 n = 0
                 while h.hpaused and sim.draw_bool(0.5, "resume-again"):
                     n += 1
                     if n > 50:
                         break
-                    h.hpaused = False
-                    p.resumeProducing()
+                    self._resume()
                 if h.hpaused or t.disconnecting:
-                    held += piece
-                    continue
-            sim.event("deliver", held + piece)
-            p.dataReceived(held + piece)
-            held = b""
-            if pausable and ext_pause_p and not h.hpaused and not t.disconnecting and sim.draw_bool(ext_pause_p, "ext-pause"):
+                    self.held += piece
+                    return
+            data, self.held = self.held + piece, b""
+            if self.tag == "split":
+                sim.event("deliver", data)
+            else:
+                sim.event("deliver", self.tag, data)
+            self._give(data)
+            if (self.pausable and self.ext_pause_p and not h.hpaused and not t.disconnecting
+                    and sim.draw_bool(self.ext_pause_p, "ext-pause")):
                 sim.fault("external_pause")
                 h.hpaused = True
                 h.pauses += 1
                 p.pauseProducing()
-        n = 0
-        while (h.hpaused or held) and not t.disconnecting:
-            n += 1
-            sim.check("harness-resume-loop", n < 400, kind)
-            if h.hpaused:
-                h.hpaused = False
-                p.resumeProducing()
-            elif held:
-                p.dataReceived(held)
-                held = b""
-    return h
+
+    def finish(self):
+        sim, h, t = self.sim, self.h, self.t
+        with sim.guard("receiver-raised", self.kind + ":" + self.tag):
+            n = 0
+            while (h.hpaused or self.held) and not t.disconnecting:
+                n += 1
+                sim.check("harness-resume-loop", n < 400, self.kind)
+                if h.hpaused:
+                    self._resume()
+                elif self.held:
+                    data, self.held = self.held, b""
+                    self._give(data)
+
+
+def drive(sim, conns):
+    """Deliver every connection's pieces; with more than one connection the tape chooses whose turn it is."""
+    last = None
+    while True:
+        live = [c for c in conns if c.more()]
+        if not live:
+            break
+        c = live[0]
+        if len(live) > 1:
+            c = live[sim.draw_int(0, len(live) - 1, "turn")]
+            if last is not None and c is not last:
+                sim.fault("interleaved_delivery")
+                if last.mid_message():
+                    sim.probe("other_connection_delivered_mid_message")
+        last = c
+        c.step()
+    for c in conns:
+        c.finish()
 
 
 def dangerous(prefix, delim, maxlen):
@@ -370,9 +533,10 @@ def merge_dangerous(pieces, delim, maxlen):
     return out
 
 
-def classify_rejection(kind, h, delim, maxlen):
-    """Small stable witness for a premature over-length rejection."""
+def classify_rejection(kind, h):
+    """Small stable witness for a premature over-length rejection (h.delim / h.maxlen = values in force then)."""
     arg = h.exceeded_arg
+    delim, maxlen = h.delim, h.maxlen
     if kind in LINE_KINDS and arg is not None and len(delim) > 1:
         ov = framing.overlap(arg, delim)
         if ov and len(arg) > maxlen and len(arg) - ov <= maxlen and delim not in arg:
@@ -400,23 +564,43 @@ def compare(sim, kind, h, exp, tail, delim, maxlen, stream):
     detail = "%s delivery of %r (MAX_LENGTH=%d delimiter=%r script=%r): event %d observed %r, reference %r" % (
         h.tag, stream, maxlen, delim, h.script, i, o, e)
     if o[0] == "exceeded" and e[0] != "exceeded":
-        sim.fail("within-limit-rejected", classify_rejection(kind, h, delim, maxlen), detail)
+        sim.fail("within-limit-rejected", classify_rejection(kind, h), detail)
     if o[0] == "close" and e[0] in ("string", "line", "nothing") and kind == "NetstringReceiver":
         sim.fail("within-limit-rejected", kind + ":close", detail)
     sim.fail("reference-mismatch", "%s:obs=%s,ref=%s" % (kind, o[0], e[0]), detail)
 
 
+def gen_stream(sim, kind, maxlen, delim, script, avoid):
+    """Grammar stream for one connection -> (stream, item boundaries)."""
+    cur = tracker(kind, maxlen, delim, script)
+    if kind in LINE_KINDS:
+        stream, bounds = gen_line_stream(sim, delim, cur)
+    elif kind == "NetstringReceiver":
+        stream, bounds = gen_net_stream(sim, cur)
+    else:
+        stream, bounds = gen_int_stream(sim, INT_KINDS[kind], cur)
+    if kind in LINE_KINDS:
+        # the stream may END inside the delimiter that follows a line of (nearly) MAX_LENGTH bytes: finish that
+        # delimiter so that the reference has a complete line to point at (or cut the partial delimiter off when
+        # steering clear)
+        if has_reconf(script):
+            st = {}
+            reference(kind, stream, maxlen, delim, script, st)
+            m, d = st["maxlen"], st["delim"]
+            risky = dangerous(stream[st["pos"]:], d, m)
+        else:
+            m, d = maxlen, delim
+            risky = dangerous(stream, d, m)
+        if risky:
+            ov = framing.overlap(stream.rsplit(d, 1)[-1], d)
+            stream = stream[:len(stream) - ov] if avoid else stream + d[ov:]
+    return stream, bounds
+
+
 def run(sim):
     kind = sim.draw_choice(KINDS, "kind")
     mode = sim.draw_weighted([("stream", 4), ("send", 1)], "mode")
-    if kind == "Int8StringReceiver":
-        maxlen = sim.draw_choice([5, 0, 1, 2, 16, 64, 254, 255], "maxlen")
-    elif kind == "NetstringReceiver":
-        maxlen = sim.draw_choice([5, 1, 2, 9, 10, 11, 20, 64, 100, 120, 1000], "maxlen")
-    elif kind in LINE_KINDS:
-        maxlen = sim.draw_choice([5, 0, 1, 2, 3, 8, 16, 64], "maxlen")
-    else:
-        maxlen = sim.draw_choice([5, 0, 1, 2, 16, 64, 256, 300], "maxlen")
+    maxlen = sim.draw_choice(MAXLENS[kind], "maxlen")
     delim = sim.draw_choice(DELIMS, "delimiter") if kind in LINE_KINDS else b""
     # Known finding (LineOnlyReceiver counts a partially received delimiter
     # against MAX_LENGTH): most LineOnlyReceiver runs steer clear of its
@@ -426,25 +610,17 @@ def run(sim):
         avoid = sim.draw_bool(AVOID_KNOWN_P, "avoid-known")
         if avoid and mode == "send" and maxlen < len(delim) - 1:
             delim = delim[:1]
-    script = gen_script(sim, kind, mode)
+    reconf = sim.draw_bool(RECONF_P, "reconf") and not avoid
+    companion = sim.draw_bool(COMPANION_P, "companion")
+    script = gen_script(sim, kind, mode, reconf)
     sim.config = {"kind": kind, "mode": mode, "maxlen": maxlen, "delimiter": repr(delim), "avoid_known": avoid,
-                  "script": {str(k): list(v) for k, v in sorted(script.items())}}
+                  "reconf": reconf, "companion": companion, "script": script_config(script)}
+    cls = make_class(kind, maxlen, delim)
 
     if mode == "send":
-        return run_send(sim, kind, maxlen, delim, script, avoid)
+        return run_send(sim, kind, cls, maxlen, delim, script, avoid, reconf, companion)
 
-    if kind in LINE_KINDS:
-        stream, bounds = gen_line_stream(sim, maxlen, delim)
-    elif kind == "NetstringReceiver":
-        stream, bounds = gen_net_stream(sim, maxlen)
-    else:
-        stream, bounds = gen_int_stream(sim, maxlen, INT_KINDS[kind])
-    if kind in LINE_KINDS and dangerous(stream, delim, maxlen):
-        # the stream would END inside the delimiter that follows a line of (nearly)
-        # MAX_LENGTH bytes: finish that delimiter so that the reference has a complete
-        # line to point at (or cut the partial delimiter off when steering clear)
-        ov = framing.overlap(stream.rsplit(delim, 1)[-1], delim)
-        stream = stream[:len(stream) - ov] if avoid else stream + delim[ov:]
+    stream, bounds = gen_stream(sim, kind, maxlen, delim, script, avoid)
     sim.event("stream", kind, maxlen, delim, stream)
     pieces = net.cut(sim, stream, None, bounds)
     if avoid:
@@ -452,9 +628,27 @@ def run(sim):
     ext_pause_p = sim.draw_choice([0.0, 0.0, 0.15], "ext-pause-p")
     exp, tail = reference(kind, stream, maxlen, delim, script)
 
-    hs = deliver_split(sim, kind, maxlen, delim, script, pieces, ext_pause_p)
+    conns = [SplitConn(sim, kind, cls, maxlen, delim, script, pieces, bounds, ext_pause_p, "split", "S")]
+    if companion:
+        # a second live connection of the same class: own stream, own script, own reference
+        script2 = gen_script(sim, kind, mode, reconf)
+        stream2, bounds2 = gen_stream(sim, kind, maxlen, delim, script2, avoid)
+        sim.event("stream2", stream2)
+        pieces2 = net.cut(sim, stream2, None, bounds2)
+        if avoid:
+            pieces2 = merge_dangerous(pieces2, delim, maxlen)
+        exp2, tail2 = reference(kind, stream2, maxlen, delim, script2)
+        conns.append(SplitConn(sim, kind, cls, maxlen, delim, script2, pieces2, bounds2, ext_pause_p,
+                               "companion", "S2"))
+        sim.probe("companion_connection")
+    drive(sim, conns)
+    hs = conns[0].h
     obs = compare(sim, kind, hs, exp, tail, delim, maxlen, stream)
-    hw = deliver_whole(sim, kind, maxlen, delim, script, stream)
+    if companion:
+        obs2 = compare(sim, kind, conns[1].h, exp2, tail2, delim, maxlen, stream2)
+        for e in obs2:
+            sim.event("obs2", *e)
+    hw = deliver_whole(sim, kind, cls, maxlen, delim, script, stream)
     obs_w = compare(sim, kind, hw, exp, tail, delim, maxlen, stream)
     sim.check("segmentation-invariant", obs == obs_w, kind,
               lambda: "stream %r pieces %r: split gave %r, whole gave %r" % (stream, pieces, obs, obs_w))
@@ -470,83 +664,126 @@ def run(sim):
     sim.nontrivial = len(pieces) > 1 and len(obs) > 0
 
 
-def run_send(sim, kind, maxlen, delim, script, avoid=False):
+class Lane:
+    """send mode: one sender instance joined to one receiver instance by its own Link."""
+
+    def __init__(self, sim, kind, cls, maxlen, delim, script, tag, nmsg):
+        self.tag, self.script = tag, script
+        self.hs = H(sim, kind, maxlen, delim, script, tag)
+        self.recv = make_receiver(cls, self.hs)
+        self.hsend = H(sim, kind, maxlen, delim, {}, tag + "-sender")
+        self.sender = make_receiver(cls, self.hsend)
+        self.link = net.Link(sim, self.sender, self.recv)
+        self.link.connect()
+        self.msgs = []
+        self.left = nmsg
+        self.cur_max, self.cur_delim = maxlen, delim    # what the sender goes by (follows the script in lockstep)
+
+
+def run_send(sim, kind, cls, maxlen, delim, script, avoid=False, reconf=False, companion=False):
     """A second real instance sends messages with the send method over a Link."""
-    hs = H(sim, kind, maxlen, script, "link")
-    recv = make_receiver(kind, hs, maxlen, delim)
-    hsend = H(sim, kind, maxlen, {}, "sender")
-    sender = make_receiver(kind, hsend, maxlen, delim)
-    link = net.Link(sim, sender, recv)
-    link.connect()
     top = 256 ** INT_KINDS[kind] - 1 if kind in INT_KINDS else None
-    msgs = []
-    nmsg = sim.draw_int(1, 6, "nmsgs")
+    lanes = [Lane(sim, kind, cls, maxlen, delim, script, "link", sim.draw_int(1, 6, "nmsgs"))]
     interleave = sim.draw_bool(0.5, "interleave")
+    if companion:
+        lanes.append(Lane(sim, kind, cls, maxlen, delim, gen_script(sim, kind, "send", reconf), "link2",
+                          sim.draw_int(1, 6, "nmsgs2")))
+        sim.probe("companion_connection")
+    last = [None]
 
     def net_steps(limit):
         n = 0
         while n < limit:
             sim.step(20000)
-            ev = link.enabled()
-            opts = list(ev)
-            if hs.hpaused:
-                opts.append(("resume", "B"))
+            opts = []
+            for li, lane in enumerate(lanes):
+                opts.extend((w, side, li) for w, side in lane.link.enabled())
+                if lane.hs.hpaused:
+                    opts.append(("resume", "B", li))
             if not opts:
                 return
             what = sim.draw_choice(opts, "net")
             n += 1
+            lane = lanes[what[2]]
             if what[0] == "resume":
-                hs.hpaused = False
-                recv.resumeProducing()
+                lane.hs.hpaused = False
+                lane.hs.delivery += 1
+                lane.recv.resumeProducing()
                 continue
             amount = None
             if what[0] in ("xmit", "deliver"):
                 amount = sim.draw_choice([None, 1000, 64, 17, 8, 5, 3, 2, 1], "amount")
                 if amount is not None:
                     sim.fault("segmentation")
-            link.do(what[0], what[1], amount)
+            if what[0] == "deliver" and what[1] == "B":
+                lane.hs.delivery += 1
+                if last[0] is not None and last[0] != what[2]:
+                    sim.fault("interleaved_delivery")
+                last[0] = what[2]
+            lane.link.do(what[0], what[1], amount)
+
+    def send_one(lane):
+        n = gen_len(sim, lane.cur_max, top)
+        n = min(n, lane.cur_max)          # only messages within the receiver's limit
+        d = lane.cur_delim
+        if avoid:
+            n = max(0, min(n, lane.cur_max - len(d) + 1))
+        if kind in LINE_KINDS:
+            m = payload(sim, n, b"xy\r\n" + d + (delim if d != delim else b""))
+            # a line cannot contain the delimiter, nor end with bytes that
+            # complete one early together with the delimiter that follows
+            if (m + d).find(d) != len(m):
+                m = m.replace(d[:1], b"z")
+            lane.sender.sendLine(m)
+        else:
+            m = payload(sim, n, b"xy,:0\x00")
+            lane.sender.sendString(m)
+        act = lane.script.get(len(lane.msgs), ("none",))
+        lane.msgs.append(m)
+        lane.left -= 1
+        sim.event("send", lane.tag, m)
+        # the peers re-negotiate: the receiver changes its parameters in the callback of this message, the sender
+        # goes by the new ones from its next message on
+        if act[0] == "maxlen":
+            lane.cur_max = act[1]
+        elif act[0] == "delim":
+            lane.cur_delim = act[1]
+            lane.sender.delimiter = act[1]
 
     with sim.guard("receiver-raised", kind + ":link"):
-        for _ in range(nmsg):
-            n = gen_len(sim, maxlen, top)
-            n = min(n, maxlen)          # only messages within the receiver's limit
-            if avoid:
-                n = max(0, min(n, maxlen - len(delim) + 1))
-            if kind in LINE_KINDS:
-                m = payload(sim, n, b"xy\r\n" + delim)
-                # a line cannot contain the delimiter, nor end with bytes that
-                # complete one early together with the delimiter that follows
-                if (m + delim).find(delim) != len(m):
-                    m = m.replace(delim[:1], b"z")
-                sender.sendLine(m)
-            else:
-                m = payload(sim, n, b"xy,:0\x00")
-                sender.sendString(m)
-            msgs.append(m)
-            sim.event("send", m)
+        while True:
+            todo = [lane for lane in lanes if lane.left > 0]
+            if not todo:
+                break
+            send_one(todo[0] if len(todo) == 1 else todo[sim.draw_int(0, len(todo) - 1, "sender-turn")])
             if interleave:
                 net_steps(sim.draw_int(0, 6, "netsteps"))
         net_steps(100000)
-    wire = bytes(link.a.written)
-    got = [e[1] for e in hs.log if e[0] in ("line", "string")]
-    other = [e for e in hs.log if e[0] not in ("line", "string")]
-    if any(e[0] == "exceeded" for e in other):
-        # every message sent is within the receiver's limit
-        sim.fail("within-limit-rejected", classify_rejection(kind, hs, delim, maxlen),
-                 "link delivery: sent %r received %r then %r, wire %r (MAX_LENGTH=%d delimiter=%r)" % (
-                     msgs, got, other, wire, maxlen, delim))
-    sim.check("sent-equals-received", got == msgs and not other, kind,
-              lambda: "sent %r received %r other events %r wire %r (MAX_LENGTH=%d delimiter=%r)" % (
-                  msgs, got, other, wire, maxlen, delim))
-    sim.check("sender-quiet", not hsend.log, kind, lambda: "sender saw %r" % (hsend.log,))
-    # the wire bytes, parsed by the reference, are exactly the messages
-    exp, tail = reference(kind, wire, maxlen, delim, {})
-    sim.check("wire-matches-reference", [e[1] for e in exp if e[0] in ("line", "string")] == msgs and tail == "none", kind,
-              lambda: "wire %r frames to %r, sent %r" % (wire, exp, msgs))
+    for lane in lanes:
+        hs, msgs = lane.hs, lane.msgs
+        wire = bytes(lane.link.a.written)
+        got = [e[1] for e in hs.log if e[0] in ("line", "string")]
+        other = [e for e in hs.log if e[0] not in ("line", "string")]
+        if any(e[0] == "exceeded" for e in other):
+            # every message sent is within the receiver's limit
+            sim.fail("within-limit-rejected", classify_rejection(kind, hs),
+                     "%s delivery: sent %r received %r then %r, wire %r (MAX_LENGTH=%d delimiter=%r script=%r)" % (
+                         lane.tag, msgs, got, other, wire, maxlen, delim, lane.script))
+        sim.check("sent-equals-received", got == msgs and not other, kind,
+                  lambda: "%s: sent %r received %r other events %r wire %r (MAX_LENGTH=%d delimiter=%r script=%r)" % (
+                      lane.tag, msgs, got, other, wire, maxlen, delim, lane.script))
+        sim.check("sender-quiet", not lane.hsend.log, kind, lambda: "sender saw %r" % (lane.hsend.log,))
+        # the wire bytes, parsed by the reference, are exactly the messages
+        exp, tail = reference(kind, wire, maxlen, delim, reconf_only(lane.script))
+        sim.check("wire-matches-reference",
+                  [e[1] for e in exp if e[0] in ("line", "string")] == msgs and tail == "none", kind,
+                  lambda: "wire %r frames to %r, sent %r" % (wire, exp, msgs))
+    hs = lanes[0].hs
+    got = [e for e in hs.log if e[0] in ("line", "string")]
     if hs.pauses:
         sim.probe("paused")
     sim.probe("send_mode")
-    sim.state((kind, "send", min(len(msgs), 6)))
+    sim.state((kind, "send", min(len(lanes[0].msgs), 6)))
     sim.nontrivial = sim.faults.get("segmentation", 0) > 0 and len(got) > 0
 
 
@@ -565,5 +802,13 @@ MUTANTS = [
     "IntNStringReceiver: 'self._unprocessed = alldata[currentOffset:]' -> keep consumed bytes when paused (prefix re-read after a pause) : caught (reference-mismatch)",
     "NetstringReceiver: _LENGTH_PREFIX '(0|[1-9]\\d*)$' -> '(0|[1-9]\\d?)$' (3-digit length split across deliveries rejected) : first SURVIVED (MAX_LENGTH <= 64 only), caught after adding MAX_LENGTH 100/120/1000 (within-limit-rejected:NetstringReceiver:close)",
     "IntNStringReceiver.sendString: prefix 'len(string) or 1' : caught (within-limit-rejected / sent-equals-received)",
+    "round 4, reconfiguration family - LineReceiver.dataReceived: delimiter / MAX_LENGTH / MAX_LENGTH+len(delimiter) read once before the loop (seed C16-r4b) : first SURVIVED (no run changed the parameters after makeConnection), caught after scripting ('maxlen', n) / ('delim', d) actions (too-long-delivered:LineReceiver, within-limit-rejected:LineReceiver:other, reference-mismatch:LineReceiver:obs=line,ref=nothing)",
+    "IntNStringReceiver.dataReceived: 'maxLength = self.MAX_LENGTH' hoisted before the loop : caught (within-limit-rejected:Int16/32StringReceiver:other, reference-mismatch:*:obs=nothing,ref=exceeded)",
+    "LineOnlyReceiver.dataReceived: MAX_LENGTH read once before the for loop : caught (within-limit-rejected:LineOnlyReceiver:other, too-long-delivered:LineOnlyReceiver)",
+    "NetstringReceiver: MAX_LENGTH cached in makeConnection and used in _extractLength : caught (within-limit-rejected:NetstringReceiver:close, too-long-delivered, sent-equals-received)",
+    "round 4, companion family - NetstringReceiver: '_payload = BytesIO()' as class attribute, no longer created in makeConnection (seed C16-r4a) : first SURVIVED (one live connection per run; the sequential twin instance is harmless because the buffer is rewound per netstring), caught after adding the interleaved companion connection (reference-mismatch:NetstringReceiver:obs=string,ref=string, too-long-delivered:NetstringReceiver, sent-equals-received:NetstringReceiver)",
+    "LineReceiver: class attribute '_buffer = bytearray()' (first += of every connection mutates the shared object) : caught (reference-mismatch:LineReceiver:obs=line,ref=exceeded / ref=nothing)",
+    "LineOnlyReceiver: residue kept in a class-level list '_chunks' : caught (within-limit-rejected:LineOnlyReceiver:other, reference-mismatch:LineOnlyReceiver:*; companion and twin runs)",
+    "observation (unchanged tree, not checked: LINEONLY_DELIM_RECONF = False): LineOnlyReceiver splits a delivery on the delimiter before calling lineReceived, so a delimiter set inside lineReceived is applied to the rest of the stream only from the next delivery on (b'EOL LF\\r\\none\\ntwo\\n' at once -> 1 line, bytewise -> 3 lines); with the flag on the check reports reference-mismatch:LineOnlyReceiver:obs=line,ref=nothing within ~1000 runs",
     "candidate FIX LineOnlyReceiver: 'if len(self._buffer) > self.MAX_LENGTH' -> '>= self.MAX_LENGTH + len(self.delimiter)' : check passes (exit 0), 48000 runs",
 ]
